@@ -22,7 +22,8 @@
    _dispatch_source_wakeup while it is still false, the store that sets it, and the "hierarchy not
    settled, install later" branch of _dispatch_source_activate.  A record that no action explains
    rejects the trace.
-   Site labels (function names) are not used for acceptance. *)
+   Site labels (function names) and memory_order tokens are not used for acceptance (a token that
+   differs from the transcription is printed as MO_DRIFT). *)
 EXTENDS Source, Json, IOUtils, TLCExt
 
 Tr == ndJsonDeserialize(IOEnv.TRACE)
@@ -43,6 +44,9 @@ Strip(x) == [sc |-> x.sc, side |-> x.side, inact |-> x.inact, na |-> x.na, ib |-
 \* RECEIVED_OVERRIDE is set with the max-qos bits only while the role is BASE_ANON (from the activation on,
 \* for a global target) and feeds back into nothing here: words are compared modulo that bit
 EqW(a, b) == [a EXCEPT !.ro = FALSE] = [b EXCEPT !.ro = FALSE]
+\* memory_order tokens are informational on this machine (x86-64 TSO: a different order cannot change any
+\* behaviour the property speaks about): a mismatch with the transcription is printed, never rejects
+MoChk(m) == IF Rec.mo = m THEN TRUE ELSE PrintT(<<"MO_DRIFT", m, Rec.mo>>)
 AllIdle == (\A t \in Threads : pc[t] = "idle") /\ tq = 0
 
 Fresh(k, tg, s0) ==
@@ -80,9 +84,9 @@ TFl == Ev("Fl") /\ Consume /\ ~Rec.canceled /\ NoChange
 TPdUpd == /\ Ev("Pd") /\ Rec.op \in {"add", "or", "store"} /\ Consume
           /\ \/ pc[T] = "m_upd" /\ MUpdate(T) /\ (Rec.op # "store" => pending = Rec.old)
              \/ pc[T] = "latch_st" /\ Rec.op = "store" /\ LatchSt(T)        \* only under Mut = "latch_load_store"
-          /\ pending' = Rec.new
-TPdXchg == Ev("Pd") /\ Rec.op = "xchg" /\ Consume /\ pending = Rec.old /\ Latch(T) /\ pending' = Rec.new
-TPdLoad == /\ Ev("Pd") /\ Rec.op = "load" /\ Consume /\ pending = Rec.old
+          /\ pending' = Rec.new /\ MoChk("relaxed")
+TPdXchg == Ev("Pd") /\ Rec.op = "xchg" /\ Consume /\ pending = Rec.old /\ Latch(T) /\ pending' = Rec.new /\ MoChk("relaxed")
+TPdLoad == /\ Ev("Pd") /\ Rec.op = "load" /\ Consume /\ pending = Rec.old /\ MoChk("relaxed")
            /\ \/ pc[T] = "wk_pend" /\ WkPend(T)
               \/ pc[T] = "i2_pend" /\ I2Pend(T)
               \/ pc[T] = "i2_after" /\ I2After(T)
@@ -94,7 +98,7 @@ StNew == Strip(Rec.new)
 IsObs == Rec.op = "load" \/ (Rec.op = "cmpxchg" /\ Rec.ok = 0)
 \* an observation the loop went on from (or the load of DISPATCH_QUEUE_IS_SUSPENDED in invoke2)
 TStObs == /\ Ev("St") /\ IsObs /\ ~Rec.gu /\ Consume /\ EqW(StOld, st)
-          /\ IF pc[T] = "i2_susp" /\ Rec.op = "load" THEN I2Susp(T) ELSE UNCHANGED vars
+          /\ IF pc[T] = "i2_susp" /\ Rec.op = "load" THEN I2Susp(T) /\ MoChk("relaxed") ELSE UNCHANGED vars
 \* an observation on which the loop gave up: the decision of the action at this control point
 TStGiveUp == /\ Ev("St") /\ IsObs /\ Rec.gu /\ Consume /\ EqW(StOld, st)
              /\ \/ pc[T] = "wk_rmw" /\ \E q \in 0..QW : ~WakeupQ(st, lv[T].mk, q).changed /\ WkRmwQ(T, q)
@@ -114,7 +118,7 @@ TStRmw == /\ Ev("St") /\ Rec.op = "cmpxchg" /\ Rec.ok = 1 /\ Consume /\ EqW(StOl
              \/ pc[T] = "a_rmw" /\ Activate(st).kind # "noop" /\ ActRmw(T)
              \/ pc[T] = "a_inherit" /\ AInherit(T)                         \* role bits only
           /\ EqW(st', StNew)
-TStXor == Ev("St") /\ Rec.op = "xor" /\ Consume /\ EqW(StOld, st) /\ DXor(T) /\ EqW(st', StNew)
+TStXor == Ev("St") /\ Rec.op = "xor" /\ Consume /\ EqW(StOld, st) /\ DXor(T) /\ EqW(st', StNew) /\ MoChk("acquire")
 
 (* ------------------------------- du_state ------------------------------- *)
 \* _dispatch_source_install: ds->ds_is_installed = true (plain, silent) and then the store of du_state
